@@ -1,14 +1,130 @@
 package main
 
 import (
+	"encoding/json"
+	"flag"
+	"fmt"
+	"os"
+	"time"
+
 	"verifharness/cli"
+	"verifharness/evidence"
+	"verifharness/props/c03b"
 	"verifharness/props/syncrun"
 	"verifharness/props/syncw"
 	"verifharness/xstate"
 )
 
+// C03 = space A (every state of the sync-world exploration: histories git-bug itself produces)
+// + space B (hand-crafted histories, package c03b).
+func run(args []string) {
+	fs := flag.NewFlagSet("C03", flag.ExitOnError)
+	replay := fs.String("replay", "", "replay file")
+	only := fs.String("space", "AB", "spaces to run (A, B or AB)")
+	depth := fs.Int("depth", 0, "override the depth of space A")
+	fs.Parse(args)
+	if *replay != "" {
+		os.Exit(replayFile(*replay))
+	}
+	tier := evidence.Tier()
+	seed := uint64(evidence.Seed())
+	rep := evidence.NewReporter("C03")
+	start := time.Now()
+	cov := map[string]any{}
+	harnessErr := false
+	exhaustive := true
+	var samples []any
+	states, transitions, traces := 0, 0, 0
+	rule := ""
+	if *only != "B" {
+		a, herr := syncrun.Explore("C03A", tier, seed, *depth, rep)
+		harnessErr = harnessErr || herr
+		cov["space_a"] = a
+		states += a["states"].(int)
+		transitions += a["transitions"].(int)
+		traces += a["traces_validated_against_impl"].(int)
+		exhaustive = exhaustive && a["exhaustive"].(bool)
+		if s, ok := a["samples"].([]any); ok {
+			samples = append(samples, s...)
+		}
+		rule = "space A: " + a["rule"].(string) + "; "
+		delete(a, "samples")
+	}
+	if *only != "A" {
+		budget := 150 * time.Second
+		if tier == "thorough" {
+			budget = 14 * time.Minute
+		}
+		b, herr := c03b.Run(tier, seed, rep, time.Now().Add(budget))
+		if b == nil {
+			fmt.Fprintln(os.Stderr, "harness error: space B did not run")
+			os.Exit(2)
+		}
+		harnessErr = harnessErr || herr
+		cov["space_b"] = b
+		// every crafted history is one state of space B; every read/merge of it by git-bug, compared
+		// with the reference reader, is one validated execution of the implementation
+		n := b["histories"].(int)
+		states += n
+		transitions += n
+		traces += n
+		exhaustive = exhaustive && b["exhaustive"].(bool)
+		if s, ok := b["samples"].([]any); ok {
+			samples = append(samples, s...)
+		}
+		rule += b["rule"].(string)
+		delete(b, "samples")
+	}
+	cov["states"] = states
+	cov["transitions"] = transitions
+	cov["traces_validated_against_impl"] = traces
+	cov["exhaustive"] = exhaustive
+	cov["samples"] = samples
+	cov["rule"] = rule
+	assumptions := append([]string{}, syncrun.Assumptions...)
+	assumptions = append(assumptions,
+		"space B: the reference reader (harness/refmodel) decodes the documented tree layout itself and decides validity and the (edit time, pack id) order from the statement; git-bug's reader is never consulted for the expected result",
+		"space B: operations in crafted packs are real bug operations marshalled by git-bug's own encoders and authored by identities stored in the repository; only clocks, parents and pack placement are crafted",
+		"space B: histories about which the statement is silent (two clock entries of different value in one commit, ordinary commit without operations, merge commit further than 1 000 000 from every parent) are only required to give the same outcome everywhere and a causal order when ordered",
+	)
+	ev := evidence.Evidence{PropertyID: "C03", Tier: tier, Seed: int(seed), Level: "model_checking", Coverage: cov,
+		Assumptions: assumptions, WallS: time.Since(start).Seconds(), Violations: rep.Viol, Known: rep.KnownSeen()}
+	if err := ev.Write(); err != nil {
+		fmt.Fprintln(os.Stderr, "harness error: cannot write evidence:", err)
+		os.Exit(2)
+	}
+	fmt.Printf("C03: states=%d transitions=%d exhaustive=%v violations=%d wall=%.1fs\n", states, transitions, exhaustive, rep.Viol, time.Since(start).Seconds())
+	if harnessErr && rep.Viol == 0 {
+		os.Exit(2)
+	}
+	rep.Exit()
+}
+
+func replayFile(path string) int {
+	b, err := os.ReadFile(path)
+	if err != nil {
+		fmt.Fprintln(os.Stderr, err)
+		return 2
+	}
+	var f struct {
+		Replay struct {
+			Space string `json:"space"`
+		} `json:"replay"`
+	}
+	if err := json.Unmarshal(b, &f); err != nil {
+		fmt.Fprintln(os.Stderr, err)
+		return 2
+	}
+	if f.Replay.Space == "B" {
+		return c03b.Replay(path)
+	}
+	return syncrun.Replay(path)
+}
+
 func main() {
 	cli.Main(map[string]func([]string){
-		"C03": func(a []string) { syncrun.Run("C03A", a) },
+		"C03":        run,
+		"c03bworker": c03b.Worker,
+		"c03bdump":   c03b.Dump,
 	}, map[string]xstate.Factory{"syncw": syncw.New})
 }
